@@ -111,7 +111,7 @@ def _sha(p):
 class C14(Check):
     prop = "C14"
     level = "exploration"
-    quick_runs = 6000
+    quick_runs = 4000
     thorough_runs = 150000
     chunk = 25
     rule = (
@@ -121,7 +121,7 @@ class C14(Check):
         "under the same bucket ids; then first start and a restart of the default SqliteStorage in the same fake home; "
         "non-trivial = legacy store held >=1 bucket with >=1 event; distinct = (profile, op-kind sequence, events per bucket)"
     )
-    expected_probes = ["legacy_events_migrated", "legacy_bucket_with_data", "legacy_bucket_name_omitted", "distractor_profile_present", "legacy_exit_dirty", "id_holes", "profile_testing", "profile_normal", "unicode_bucket_id", "restart_new_checked"]
+    expected_probes = ["legacy_events_migrated", "legacy_bucket_with_data", "legacy_bucket_name_omitted", "distractor_profile_present", "legacy_exit_dirty", "id_holes", "profile_testing", "profile_normal", "unicode_bucket_id", "restart_new_checked", "legacy_bucket_over_1000_events", "legacy_negative_duration"]
     assumptions = ["the data directory is found through XDG_DATA_HOME (platformdirs); the harness asserts every database path lies inside the run's scratch home"]
     real_components = ["PeeweeStorage (legacy store at default path)", "SqliteStorage (new store at default path)", "aw_datastore.migration", "aw_core.dirs / platformdirs", "SQLite engine", "peewee ORM"]
     stub_components = ["home directory (XDG_* in scratch)", "loggers", "the legacy client (generated history)"]
@@ -155,6 +155,18 @@ class C14(Check):
         weights = {"importer": 2.0, "editor": 0.8}
         nsteps = r.choice([0, 1, 3, 6, 12, 25])
         steps += [s for s in actors.schedule(rs["sched"], parties, weights, nsteps) if s["op"] != "replace_last"]
+        br = rs["big"]
+        if br.random() < 0.08:
+            # a large legacy bucket (any number of events): one or more bulk loads of hundreds to thousands
+            b = br.choice(buckets)
+            for _ in range(br.randrange(1, 4)):
+                n = br.choice([300, 700, 1100, 1500])
+                steps.append({"op": "insertN", "b": b, "evs": [{"ev": {"ts": lat["base"] + k * 1_000_000 + br.randrange(0, 1000) * 1000, "off": 0, "dur": 1_000_000, "data": {"n": k}}} for k in range(n)]})
+        nr = rs["neg"]
+        if nr.random() < 0.15:
+            # legacy data is whatever it is: events with a negative duration are legal Event values
+            b = nr.choice(buckets)
+            steps.append({"op": "insertN", "b": b, "evs": [{"ev": {"ts": gen.lat_ts(nr, lat), "off": 0, "dur": -nr.choice([1, 1000, 1_500_000, 60_000_000]), "data": {"neg": True}}} for _ in range(nr.randrange(1, 4))]})
         steps.append({"op": "first_start", "dirty": r.random() < 0.3})
         steps.append({"op": "restart_new"})
         return {"backend": "peewee-to-sqlite", "profile": profile, "steps": steps, "lat": lat}
@@ -191,6 +203,10 @@ class C14(Check):
                 pr["legacy_bucket_with_data"] += 1
             if wm.get("name") is None:
                 pr["legacy_bucket_name_omitted"] += 1
+            if len(we) > 1000:
+                pr["legacy_bucket_over_1000_events"] += 1
+            if any(t[1] < 0 for t in we):
+                pr["legacy_negative_duration"] += 1
             ids = sorted(t[0] for t in want[b]["events"])
             if ids and ids[-1] - ids[0] + 1 != len(ids):
                 pr["id_holes"] += 1
